@@ -993,6 +993,36 @@ def script_deep_eq(g, n, out):
                 "extra", g.AuxData(1, "uint8_t"))
             yield "aux-key-removed", lambda: x.aux_data.pop("neg64")
 
+        # a block that belongs to neither IR any more (its edges discarded
+        # and the block detached on both sides) is no content of either:
+        # whatever it looks like, the IRs are still equal
+        x1, x2 = build(), build()
+        for x in (x1, x2):
+            m = sorted(x.modules, key=lambda mm: -len(mm.sections))[0]
+            bi = max((b for s_ in m.sections for b in s_.byte_intervals),
+                     key=lambda b: len(b.blocks))
+            kc = sorted((e_.source for e_ in x.cfg
+                         if isinstance(e_.source, g.CodeBlock)),
+                        key=lambda k: k.uuid.int)[0]
+            bi = kc.byte_interval
+            m = kc.module
+            for e in list(x.cfg):
+                if e.source is kc or e.target is kc:
+                    x.cfg.discard(e)
+            for y_ in list(m.symbols):
+                if y_.referent is kc:
+                    y_.referent = None
+            if m.entry_point is kc:
+                m.entry_point = None
+            bi.blocks.discard(kc)
+            if x is x1:
+                kc.size += 3
+                kc.decode_mode = g.CodeBlock.DecodeMode.Thumb
+        steps += 1
+        need(x1.deep_eq(x2) and x2.deep_eq(x1),
+             "C18/scale:false-for-equal:detached-block-differs",
+             "%s: a block with no edges left and detached from both IRs "
+             "differs; deep_eq says the IRs differ" % where)
         names = [nm for nm, _ in perturbations(build())]
         for nm in names:
             x = build()
